@@ -206,6 +206,31 @@ def main(argv):
             cmds += tres["cmds"][:2]
             samples += tres["samples"][:4]
 
+    # ---------------- build probes (C18: the no-alloc configuration must build without the alloc crate) ----------------
+    bres = None
+    if pr.get("build_probes"):
+        bres = []
+        for bp in pr["build_probes"]:
+            tdir = os.path.join(work if alt else vxlib.WORK, "build-probe-target")
+            cmd = bp["cmd"] + ["--target-dir", tdir]
+            env = dict(os.environ, CARGO_NET_OFFLINE="true", CARGO_TERM_COLOR="never")
+            env.pop("RUSTUP_TOOLCHAIN", None)
+            p = subprocess.run(cmd, cwd=REPO, env=env, capture_output=True, text=True, timeout=1200)
+            ok = p.returncode == 0
+            # the alloc crate must only be nameable behind the `alloc` feature
+            lib = open(os.path.join(REPO, "src", "lib.rs")).read()
+            gated = re.search(r"#\[cfg\(feature = \"alloc\"\)\]\s*extern crate alloc;", lib) is not None and len(re.findall(r"extern crate alloc", lib)) == 1
+            obligations += 2
+            cmds.append("(cd %s && %s)" % (REPO, " ".join(cmd)))
+            if ok and gated:
+                discharged += 2
+            else:
+                failed.append({"name": "build::%s" % bp["name"], "tags": [prop], "engine": "rustc", "kind": "build probe",
+                               "rendered": (p.stderr[-2500:] if not ok else "`extern crate alloc` is not gated by the alloc feature"),
+                               "clause": bp["doc"], "counterexample": {"command": " ".join(cmd), "cwd": REPO}})
+            bres.append({"name": bp["name"], "ok": ok and gated, "doc": bp["doc"]})
+            samples.append({"obligation": "build::" + bp["name"], "what": bp["doc"], "status": "discharged" if ok and gated else "FAILED"})
+
     # ---------------- verdict ----------------
     known = [k for k in load_known() if k["property"] == prop]
     known_names = set(k["obligation"] for k in known)
@@ -232,6 +257,7 @@ def main(argv):
         "verus_units": units_ev,
         "kani": kres["harnesses"] if kres else [],
         "type_probes": tres["summary"] if tres else None,
+        "build_probes": bres,
         "solver_time_ms": solver_ms,
         "samples": samples or [{"note": "no obligations generated"}],
         "bounded_parts": pr.get("bounded_parts", []),
